@@ -43,7 +43,7 @@ Qed.
 
 (** the link condition, as a statement about declarations and recorded edges *)
 Lemma links_closed_sound st : links_closed st = true ->
-  forall d m, In d (ds_decls st) -> In m (dd_mentions d) ->
+  forall d m, In d (ds_decls st) -> In m (dd_mentions d ++ dd_impl d) ->
   exists d', In d' (ds_decls st) /\ dd_id d' = m
              /\ (dd_file d' = dd_file d \/ (In (dd_file d, dd_file d') (ds_imps st) /\ dd_file d' <> dd_file d)).
 Proof.
@@ -57,7 +57,7 @@ Proof.
 Qed.
 
 Lemma links_closed_complete st :
-  (forall d m, In d (ds_decls st) -> In m (dd_mentions d) ->
+  (forall d m, In d (ds_decls st) -> In m (dd_mentions d ++ dd_impl d) ->
      exists d', In d' (ds_decls st) /\ dd_id d' = m
                 /\ (dd_file d' = dd_file d \/ In (dd_file d, dd_file d') (ds_imps st))) ->
   links_closed st = true.
